@@ -55,3 +55,28 @@ Definition run_gbase (fields : list str) : str :=
       end
   | _ => lit "BADCASE"
   end.
+
+(* ["gjenc"; plain; salt] / ["gjdec"; crypt]: the $9$ codec as GENERATED from utils/juniper_secrets.py (gen/G_fn_jun.v) *)
+Require Import G_fn_jun.
+Definition no_call (f a : pyval) : PyLib.res := Exc TypeError.
+Definition show_gres (r : PyLib.res) : str :=
+  match r with
+  | Normal (VStr s) => lit "OK:" ++ map Z.to_N s
+  | Normal _ => lit "ERR:not-a-string"
+  | Exc (ValueError _) => lit "ValueError"
+  | Exc KeyError => lit "KeyError"
+  | Exc IndexError => lit "IndexError"
+  | Exc TypeError => lit "TypeError"
+  | Exc OutOfFuel => lit "OutOfFuel"
+  | _ => lit "ERR:other"
+  end.
+Definition run_gjun (fields : list str) : str :=
+  match fields with
+  | [cmd; plain; salt] =>
+      if str_eqb cmd (lit "gjenc") then show_gres (gen_juniper_nonrandom_encrypt no_call (S (length plain)) (VStr (zs plain)) (VStr (zs salt)))
+      else lit "BADCASE"
+  | [cmd; crypt] =>
+      if str_eqb cmd (lit "gjdec") then show_gres (gen_juniper_decrypt no_call (S (length crypt)) (VStr (zs crypt)))
+      else lit "BADCASE"
+  | _ => lit "BADCASE"
+  end.
